@@ -56,3 +56,46 @@ def make_u(C, N=1, closed=True):
         for x in row:
             C.assume(x >= 0, x <= 1)
     return U4([SymArray([SV(t=x) for x in row], "float") for row in us]), us
+
+
+def throw_slices(ns):
+    """The real source of RegionGeom.throw cut at the path-length sampling: a function
+    throw_sliced(self, u) made of the statements of the CURRENT source from `u1, u2, u3, u4 = u`
+    up to (not including) `b = (...)`, and from `rvsqrd = ...` to the end (original file name and
+    line numbers preserved). `self.losPathLen` must be preset by the harness. The omitted middle
+    (cubic root selection) is the subject of its own job."""
+    import ast
+
+    from symnp.core import HarnessError
+
+    path = ns["__file__"]
+    with open(path) as f:
+        tree = ast.parse(f.read(), path)
+    fn = None
+    for node in ast.walk(tree):
+        if isinstance(node, ast.ClassDef) and node.name == "RegionGeom":
+            for b in node.body:
+                if isinstance(b, ast.FunctionDef) and b.name == "throw":
+                    fn = b
+    if fn is None:
+        raise HarnessError("RegionGeom.throw not found")
+
+    def idx(marker, start=0):
+        for k in range(start, len(fn.body)):
+            if marker in ast.unparse(fn.body[k]).replace("\n", " "):
+                return k
+        raise HarnessError(f"throw(): statement {marker!r} not found -- the slicing harness must be revisited")
+
+    i_head = idx("u1, u2, u3, u4 = u")
+    i_b = idx("b = ", i_head)
+    i_tail = idx("rvsqrd = self.losPathLen * self.losPathLen", i_b)
+    new = ast.FunctionDef(name="throw_sliced", args=fn.args, body=fn.body[i_head:i_b] + fn.body[i_tail:], decorator_list=[], returns=None, type_comment=None,
+                          lineno=fn.lineno, col_offset=0, end_lineno=fn.end_lineno, end_col_offset=0)
+    if hasattr(ast, "TypeAlias"):
+        new.type_params = []
+    mod = ast.Module(body=[new], type_ignores=[])
+    ast.fix_missing_locations(mod)
+    loc = {}
+    exec(compile(mod, path, "exec"), ns, loc)
+    cut = (fn.body[i_b].lineno, fn.body[i_tail].lineno - 1)
+    return loc["throw_sliced"], cut
